@@ -50,6 +50,40 @@ impl MagnetLink {
     self.indices.insert(index);
   }
 
+  /// Percent-encode a query parameter value, so that it survives both
+  /// `Url::set_query` and a standard query string parser unchanged. Unreserved
+  /// characters and the sub-delimiters that are harmless inside a value are
+  /// left as they are, to keep links readable.
+  fn push_value(query: &mut String, value: &str) {
+    for byte in value.bytes() {
+      match byte {
+        b'0'..=b'9'
+        | b'A'..=b'Z'
+        | b'a'..=b'z'
+        | b'-'
+        | b'.'
+        | b'_'
+        | b'~'
+        | b':'
+        | b'/'
+        | b'?'
+        | b'@'
+        | b'!'
+        | b'$'
+        | b'\''
+        | b'('
+        | b')'
+        | b'*'
+        | b','
+        | b';'
+        | b'='
+        | b'['
+        | b']' => query.push(byte.into()),
+        _ => query.push_str(&format!("%{byte:02X}")),
+      }
+    }
+  }
+
   pub(crate) fn to_url(&self) -> Url {
     let mut url = Url::parse("magnet:").invariant_unwrap("`magnet:` is valid URL");
 
@@ -57,17 +91,17 @@ impl MagnetLink {
 
     if let Some(name) = &self.name {
       query.push_str("&dn=");
-      query.push_str(name);
+      Self::push_value(&mut query, name);
     }
 
     for tracker in &self.trackers {
       query.push_str("&tr=");
-      query.push_str(tracker.as_str());
+      Self::push_value(&mut query, tracker.as_str());
     }
 
     for peer in &self.peers {
       query.push_str("&x.pe=");
-      query.push_str(&peer.to_string());
+      Self::push_value(&mut query, &peer.to_string());
     }
 
     if !self.indices.is_empty() {
